@@ -356,6 +356,10 @@ func builtinStringSplit(call FunctionCall) Value {
 	}
 
 	if limit == 0 {
+		if !separatorValue.isRegExp() {
+			// 15.5.4.14 step 8 converts the separator before step 9 returns.
+			separatorValue.string()
+		}
 		return objectValue(call.runtime.newArray(0))
 	}
 
